@@ -117,4 +117,8 @@ def cases(ctx, tier):
         add('mpz_abs %s %d' % (hx(a), al1), 'mpz_abs')
         add('mpz_set %s %d' % (hx(a), al1), 'mpz_set')
         add('mpz_swap %s %s' % (hx(a), hx(b)), 'mpz_swap')
+    # shift counts that do not fit 32 bits (the result has half a gigabyte: observed through its bit length, lowest set bit, sign and
+    # by shifting it back; two cases per run)
+    for u, cnt in ((3, 1 << 32), (-5, (1 << 32) + 5)):
+        out.append(('mpz_mul_2exp_big %s %x' % (hx(u), cnt), 'mpz_mul_2exp-count-above-32-bits'))
     return out
